@@ -4,12 +4,16 @@ def I(e, **kw):
     d = dict(name=e, entry='h_' + e, unwind=6, timeout_s=240, mem_gb=4, tiers=('quick', 'thorough'), bound=BOUND)
     d.update(kw); return d
 STEPS = ['ack_enabled', 'ack_disabled', 'setack', 'resume', 'enable_keep', 'enable_reset', 'request', 'inbound', 'send', 'send_compat', 'session_closed', 'reset_cache']
+C2S = ['resumed', 'resume_failed', 'enabled', 'request_resume']
 SPEC = dict(
     property='C09',
     groups=[
         dict(name='step', harness='h.cpp', tus=['src/base/QXmppStreamManagement.cpp', 'src/base/QXmppPacket.cpp'],
              models=['qt_core.c', 'qt_dom.c', 'models.c'], shadow_task=True, cxxdefs={'VP_NMAX': NMAX},
              instances=[I(e) for e in STEPS]),
+        dict(name='c2s', harness='h_c2s.cpp', tus=['src/base/QXmppStreamManagement.cpp', 'src/base/QXmppPacket.cpp', 'src/client/QXmppOutgoingClient.cpp', 'src/base/QXmppUtils.cpp'],
+             models=['qt_core.c', 'qt_dom.c', 'models.c'], shadow_task=True, cxxdefs={'VP_NMAX': NMAX},
+             instances=[I('c2s_' + e) for e in C2S]),
     ],
     bounds=[], assumptions=[], outside=[],
 )
